@@ -25,6 +25,7 @@ from typing import Any, Dict, List, Optional, Tuple
 import numpy as np
 
 from . import common
+from . import c15_lines
 from .common import Ctx, frac, hexs, rs, unhex
 
 EPOCH = _dt.datetime(1, 1, 1)
@@ -80,12 +81,27 @@ def _gen_value(rng, plus: bool) -> str:
     return dec_text(rng, -30, 30, 2, plus)
 
 
-def gen_comment(rng) -> str:
+SPECIALS: Dict[str, int] = {}  # histogram of the special characters put into free-text cells (reset per run)
+
+
+def special(rng, s: str, width: int, where: str, p: float = 0.15) -> str:
+    """with probability p: one character at which str.splitlines() cuts but text-mode file iteration does not (FF, VT,
+    FS/GS/RS, NEL, U+2028/9; also US) inside the text"""
+    if rng.random() >= p:
+        return s
+    t, c = c15_lines.inject(rng, s, width)
+    if c is not None:
+        key = f"free text with {c15_lines.name(c)} in {where}"
+        SPECIALS[key] = SPECIALS.get(key, 0) + 1
+    return t
+
+
+def gen_comment(rng, where: str = "comment") -> str:
     n = rng.randint(0, 60)
     s = "".join(rng.choice(COMMENT_CHARS) for _ in range(n))
     if rng.random() < 0.3:
         s = " " * rng.randint(1, 5) + s
-    return s[:60]
+    return special(rng, s[:60], 60, where)
 
 
 def gen_seconds(rng) -> str:
@@ -148,7 +164,8 @@ def gen_antenna(rng, kind: str, used: Dict[str, Any], thorough: bool, decimal_gr
         systems = [sysid]
     a["meth"] = None
     if rng.random() < 0.8:
-        a["meth"] = [rng.choice(["ROBOT", "FIELD", "CHAMBER", "COPIED", "CONVERTED", ""]), rng.choice(["Geo++ GmbH", "IGS", "TUM", ""]),
+        a["meth"] = [special(rng, rng.choice(["ROBOT", "FIELD", "CHAMBER", "COPIED", "CONVERTED", ""]), 20, "METH"),
+                     special(rng, rng.choice(["Geo++ GmbH", "IGS", "TUM", ""]), 20, "METH"),
                      str(rng.randint(0, 99)), rng.choice(["29-JAN-17", "04-AUG-14", "16-DEC-20"])]
     # grids
     if kind == "sat":
@@ -191,6 +208,8 @@ def gen_antenna(rng, kind: str, used: Dict[str, Any], thorough: bool, decimal_gr
         if rng.random() < 0.15:
             a["valid_until"] = gen_date(rng)
     a["sinex"] = rng.choice([None, "IGS14_2000", "IGS20_2247"])
+    if a["sinex"]:
+        a["sinex"] = special(rng, a["sinex"], 10, "SINEX CODE")
     # frequencies
     pool = [f for s in systems for f in SYS_FREQS[s]]
     nf = min(len(pool), rng.randint(1, 5))
@@ -224,7 +243,7 @@ def gen_antenna(rng, kind: str, used: Dict[str, Any], thorough: bool, decimal_gr
     a["comments"] = []
     if rng.random() < 0.5:
         for _ in range(rng.randint(1, 4)):
-            a["comments"].append([rng.random(), gen_comment(rng)])
+            a["comments"].append([rng.random(), gen_comment(rng, "antenna-section comment")])
     a["blank_lines"] = [rng.random() for _ in range(rng.randint(1, 2))] if rng.random() < 0.1 else []
     return a
 
@@ -236,12 +255,12 @@ def gen_file(rng, thorough: bool, decimal_grid: bool = False) -> Dict[str, Any]:
     m["pcv_type"] = rng.choice(["A", "R"])
     m["ref_antenna"] = "" if m["pcv_type"] == "A" else rng.choice(["AOAD/M_T        NONE", "AOAD/M_T"])
     m["ref_serial_num"] = "" if m["pcv_type"] == "A" or rng.random() < 0.5 else "CR1234"
-    m["comments"] = [gen_comment(rng) for _ in range(rng.randint(0, 4))]
+    m["comments"] = [gen_comment(rng, "header comment") for _ in range(rng.randint(0, 4))]
     m["comment_first"] = rng.random() < 0.2  # comments may precede the PCV TYPE record
     used = {"rcv": set(), "prns": set(), "periods": set()}
     n = rng.randint(1, 6)
     m["antennas"] = [gen_antenna(rng, rng.choice(["rcv", "sat"]), used, thorough, decimal_grid) for _ in range(n)]
-    m["between"] = [[rng.randint(0, n), gen_comment(rng)] for _ in range(rng.randint(0, 2))] if rng.random() < 0.2 else []
+    m["between"] = [[rng.randint(0, n), gen_comment(rng, "comment between antennas")] for _ in range(rng.randint(0, 2))] if rng.random() < 0.2 else []
     return m
 
 
@@ -527,7 +546,7 @@ class Workdir:
     def path(self, text: str) -> str:
         self.n += 1
         p = os.path.join(self.d, f"f{self.n % 4}.atx")
-        with open(p, "w", newline="") as f:
+        with open(p, "w", newline="", encoding="utf-8") as f:
             f.write(text)
         return p
 
@@ -896,6 +915,7 @@ def run(ctx: Ctx):
     extract_antex.main()
     ctx.proof = common.prove("C15")
     rng = ctx.rng
+    SPECIALS.clear()
     wd = Workdir()
     try:
         drv = ctx.driver
@@ -964,6 +984,33 @@ def run(ctx: Ctx):
             one_text(ctx, drv, wd, text, case, m, model_ans=ans)
             if i % 10 == 0:
                 check_calibration(ctx, wd, m, text, case)
+        # line ends: `read_data` iterates the text-mode file object (universal newlines).  The same well-formed file with
+        # CRLF or bare-CR line ends must parse to the same calibrations (oracle + correspondence through textLines of the
+        # model); a CR *inside* a comment is a line end for the real parser (the file is then not the rendering of its
+        # model): correspondence only - the model must cut where the code cuts
+        for i in range(ctx.budget(24, 240)):
+            m = gen_file(rng, False)
+            how = ["CRLF line ends", "CR line ends", "mixed line ends", "no final line end", "CR inside an antenna-section comment"][i % 5]
+            text = write_antex(m)
+            if how == "CRLF line ends":
+                text = text.replace("\n", "\r\n")
+            elif how == "CR line ends":
+                text = text.replace("\n", "\r")
+            elif how == "mixed line ends":
+                text = "".join(l + rng.choice(c15_lines.TEXT_MODE_LINE_ENDS) for l in text.split("\n")[:-1])
+            elif how == "no final line end":
+                text = text[:-1]
+            else:
+                a = rng.choice(m["antennas"])
+                a["comments"] = a["comments"] + [[rng.random(), rng.choice(["ROBOT\rPAGE 2", "12.5\r 3.25  -1.00", "see note\r\n   7.0   1.00"])]]
+                text = write_antex(m)
+            case = {"line_ends": how, "i": i, "model": slim(m)}
+            ctx.case(common.digest(text))
+            ctx.count(how)
+            if how.startswith("CR inside"):
+                one_text(ctx, drv, wd, text, case, None, name="parse(file with a CR inside a comment): lines as text-mode iteration cuts them")
+            else:
+                one_text(ctx, drv, wd, text, case, m, name=f"parse(file with {how})")
         # files that are *not* well-formed in one way: a repeated antenna / frequency / period must be refused
         for i in range(ctx.budget(20, 150)):
             m = gen_file(rng, False)
@@ -1000,6 +1047,8 @@ def run(ctx: Ctx):
                 ctx.violate(key + (":decimal-step" if key.startswith("grid:") else ""), what, {**case, "model": m, "file_text": text})
     finally:
         wd.close()
+    for k, v in sorted(SPECIALS.items()):
+        ctx.count(k, v)
     ctx.traces = ctx.evaluations
 
 
